@@ -148,7 +148,12 @@ fn read_state(image: &Image, cfg: Config) -> Result<Map, String> {
 
 fn build_base(rng: &mut Rng, idx: u64) -> Result<Base, String> {
     let mut params = ExecParams::generate(rng, idx, rng.clone().range(90, 160) as usize);
-    params.reopen_weight = 0;
+    // every other base is closed and reopened a few times on the way (with and without log reuse)
+    // and once more at the end without reuse: an open that does not take the old manifest over
+    // writes a new one whose FIRST record is the snapshot of all table files, not the file-less
+    // record of a fresh database
+    params.reopen_weight = if idx % 2 == 1 { 3 } else { 0 };
+    params.final_reopen_without_reuse = idx % 2 == 1;
     params.big_values = false;
     params.family = if idx % 2 == 0 { KeyFamily::Ascii } else { KeyFamily::Binary };
     params.pool = 30;
